@@ -152,6 +152,12 @@ def special_family():
         out.append(_mounted(base, 'root', 'order', tasks_list=list(order) + ['Abs']))
     d = _mounted(base, 'root', 'wildcard', tasks_list=['<mod>.*'])
     out.append(d)
+    # the same declared as class OBJECTS in a config built from a dict (an abstract class named there is still not a task)
+    d = _mounted(base, 'root', 'order-objects', tasks_list=['A', 'Abs', 'B', 'C'])
+    for c in d['configs'].values():
+        if c.get('tasks'):
+            c.update(medium='inline', tasks_as_classes=True)
+    out.append(d)
     d = _mounted(base, 'as_n', 'excluded', tasks_list=['<mod>.*'])
     d['configs']['pipe']['excluded'] = ['C']
     out.append(d)
